@@ -34,7 +34,8 @@ type World struct {
 	Callback func(label, kind string) error
 	// Probe is invoked by the innermost `probe <label>` handler.
 	Probe func(label string, w http.ResponseWriter, r *http.Request) (int, error)
-	// SetupFail: `simfail <what>` returns an error at setup when this says so.
+	// ProbeNext, when set, is used instead of Probe and also gets the next handler.
+	ProbeNext func(label string, next httpserver.Handler, w http.ResponseWriter, r *http.Request) (int, error)
 	TmpDir string
 	// OnWrap is called when a listener is handed to the simnet middleware.
 	OnWrap func(tag string)
@@ -136,6 +137,9 @@ type probeHandler struct {
 }
 
 func (p probeHandler) ServeHTTP(w http.ResponseWriter, r *http.Request) (int, error) {
+	if p.w.ProbeNext != nil {
+		return p.w.ProbeNext(p.label, p.next, w, r)
+	}
 	return p.w.Probe(p.label, w, r)
 }
 
